@@ -299,6 +299,36 @@ def lr_pairs(tier):
     for o in singles:
         if buildable(o):
             pairs.append(('smiV2', {}, o, {o: True}))
+    if tier != 'quick':
+        # "every dialect that enables a SUPERSET of its relaxations": every two-option combination of the additive options
+        # against each of its members, and option subsets of size 3..6 drawn with VERIF_SEED against one member and against
+        # the subset with one option removed
+        import itertools
+        import os
+        import random
+        adds = [o for o in ADDITIVE if buildable(o)]
+        for a, b in itertools.combinations(adds, 2):
+            both = '+'.join(sorted((a, b)))
+            if not buildable(both):
+                continue
+            for o in (a, b):
+                pairs.append((o, {o: True}, both, {a: True, b: True}))
+        rnd = random.Random(int(os.environ.get('VERIF_SEED', '0') or 0) + 17)
+        pool = sorted(set(adds + ['supportSmiV1Keywords']))
+        for _ in range(6):
+            k = rnd.randint(3, min(6, len(pool)))
+            sub = sorted(rnd.sample(pool, k))
+            name = '+'.join(sub)
+            if 'supportIndex' in sub and 'supportSmiV1Keywords' not in sub:
+                continue                            # not buildable on its own
+            if not buildable(name):
+                continue
+            drop = sub[rnd.randrange(len(sub))]
+            less = [o for o in sub if o != drop]
+            if 'supportIndex' in less and 'supportSmiV1Keywords' not in less:
+                less = [o for o in less if o != 'supportIndex']
+            if buildable('+'.join(less)):
+                pairs.append(('+'.join(less), dict((o, True) for o in less), name, dict((o, True) for o in sub)))
     return pairs
 
 
